@@ -36,7 +36,7 @@ BUDGET_S = {'quick': 240, 'thorough': 2400}
 
 FEATS = ('hier', 'abstract', 'extra', 'enum', 'strlike', 'any', 'untyped',
          'date', 'path', 'defaults', 'sweeten', 'seasoned',
-         'abstract_containers', 'buf', 'multi')
+         'abstract_containers', 'buf', 'multi', 'scalarized')
 
 
 @st.composite
